@@ -185,6 +185,9 @@ pub struct ConnScript {
     /// enable keep alive on the client
     #[serde(default)]
     pub keep_alive: bool,
+    /// additional one-way latency of this client's path: [initial, after rebind 0, after rebind 1, ...]
+    #[serde(default)]
+    pub path_delays_us: Vec<u64>,
 }
 
 #[derive(Clone, Debug, Serialize, Deserialize, PartialEq)]
